@@ -181,6 +181,13 @@ class Translator:
                     e.slice.lower is not None and e.slice.upper is not None:
                 return '(sliceM %s %s %s)' % (self.expr(e.value, env, cname), self.expr(e.slice.lower, env, cname),
                                              self.expr(e.slice.upper, env, cname))
+        if getattr(self, 'effect_mode', None) == 'sql':
+            if isinstance(e, ast.Call) and isinstance(e.func, ast.Attribute) and e.func.attr == 'from_policy' and \
+                    isinstance(e.func.value, ast.Name) and e.func.value.id == 'PolicyModel' and len(e.args) == 1:
+                return '(fromPolicyM %s)' % self.expr(e.args[0], env, cname)
+            if isinstance(e, ast.Call) and isinstance(e.func, ast.Attribute) and e.func.attr == 'to_policy' and not e.args and \
+                    isinstance(e.func.value, ast.Name) and e.func.value.id in env:
+                return '(toPolicyM %s)' % env[e.func.value.id]
         if getattr(self, 'effect_mode', None) == 'mongo':
             if isinstance(e, ast.Call) and isinstance(e.func, ast.Attribute) and e.func.attr == '__feed_policies' and \
                     isinstance(e.func.value, ast.Name) and e.func.value.id == 'self' and len(e.args) == 1:
@@ -623,6 +630,107 @@ class Translator:
             hoisted = self._hoist_store_call(s, rest, env, cname, end, brk)
             if hoisted is not None:
                 return hoisted
+        if getattr(self, 'effect_mode', None) == 'sql':
+            def sess_call(c, name):
+                return isinstance(c, ast.Call) and isinstance(c.func, ast.Attribute) and c.func.attr == name and \
+                    isinstance(c.func.value, ast.Attribute) and c.func.value.attr == 'session' and \
+                    isinstance(c.func.value.value, ast.Name) and c.func.value.value.id == 'self'
+
+            def fresh_w():
+                self.fresh += 1
+                w = 'w%d' % self.fresh
+                env2 = dict(env)
+                env2['__w'] = '(pure %s)' % w
+                return w, env2
+
+            def plain(stmts):
+                return [b for b in stmts if not is_log_call(b)]
+            if isinstance(s, ast.Try) and not s.orelse and not s.finalbody and s.handlers and \
+                    all(isinstance(h.type, ast.Name) and h.type.id in ('IntegrityError', 'FlushError') for h in s.handlers):
+                # the handlers of a failed flush.  Which of the two exceptions SQLAlchemy raises for a key that is already taken
+                # depends on its identity map; the translator insists that both handlers do the same in that case (the test on
+                # the FlushError message being true for it) and translates that one reaction.
+                bodies = []
+                for h in s.handlers:
+                    hb = plain(h.body)
+                    if h.type.id == 'FlushError' and len(hb) == 1 and isinstance(hb[0], ast.If) and not hb[0].orelse and \
+                            isinstance(hb[0].test, ast.Compare) and isinstance(hb[0].test.left, ast.Constant) and \
+                            'conflicts with persistent instance' in str(hb[0].test.left.value):
+                        hb = plain(hb[0].body)
+                    bodies.append(hb)
+                if len({repr([ast.dump(x) for x in b]) for b in bodies}) != 1:
+                    raise Untranslatable('the handlers of a failed flush differ')
+                self._flush_handler = bodies[0]
+                try:
+                    return self.block(s.body + rest, env, cname, end, brk)
+                finally:
+                    self._flush_handler = None
+            if isinstance(s, ast.Try) and not s.orelse and not s.finalbody and len(s.handlers) == 1 and \
+                    isinstance(s.handlers[0].type, ast.Name) and s.handlers[0].type.id == 'Exception':
+                hb = plain(s.handlers[0].body)
+                if hb and isinstance(hb[-1], ast.Raise) and hb[-1].exc is None:
+                    # any exception in the body: the handler (here on the session as it stood - a rollback does not care what was
+                    # pending) and the exception goes on
+                    return '(tryElseM %s\n      %s)' % (self.block(s.body + rest, env, cname, end, brk),
+                                                       self.block(hb, env, cname, end, brk))
+            if isinstance(s, ast.Expr) and sess_call(s.value, 'add') and len(s.value.args) == 1:
+                w, env2 = fresh_w()
+                return '(sessAddM %s %s fun %s =>\n      %s)' % (self.expr(s.value.args[0], env, cname), env['__w'], w,
+                                                              self.block(rest, env2, cname, end, brk))
+            if isinstance(s, ast.Expr) and sess_call(s.value, 'commit') and not s.value.args:
+                w, env2 = fresh_w()
+                if getattr(self, '_flush_handler', None):
+                    self.fresh += 1
+                    wc = 'w%d' % self.fresh
+                    envc = dict(env)
+                    envc['__w'] = '(pure %s)' % wc
+                    handler = self._flush_handler
+                    self._flush_handler = None
+                    try:
+                        hterm = self.block(handler, envc, cname, end, brk)
+                    finally:
+                        self._flush_handler = handler
+                    return '(sessCommitTryM %s\n      (fun %s => %s)\n      (fun %s => %s))' % (
+                        env['__w'], w, self.block(rest, env2, cname, end, brk), wc, hterm)
+                return '(sessCommitM %s fun %s =>\n      %s)' % (env['__w'], w, self.block(rest, env2, cname, end, brk))
+            if isinstance(s, ast.Expr) and sess_call(s.value, 'rollback') and not s.value.args:
+                w, env2 = fresh_w()
+                return '(sessRollbackM %s fun %s =>\n      %s)' % (env['__w'], w, self.block(rest, env2, cname, end, brk))
+            if isinstance(s, ast.Assign) and len(s.targets) == 1 and isinstance(s.targets[0], ast.Name) and \
+                    sess_call(s.value, 'get') and len(s.value.args) == 2 and isinstance(s.value.args[0], ast.Name) and \
+                    s.value.args[0].id == 'PolicyModel':
+                self.fresh += 1
+                r, w = 'r%d' % self.fresh, 'w%d' % self.fresh
+                env2 = dict(env)
+                env2[s.targets[0].id] = '(pure %s)' % r
+                env2['__w'] = '(pure %s)' % w
+                return '(sessGetM %s %s fun %s %s =>\n      %s)' % (self.expr(s.value.args[1], env, cname), env['__w'], r, w,
+                                                                   self.block(rest, env2, cname, end, brk))
+            if isinstance(s, ast.Expr) and isinstance(s.value, ast.Call) and isinstance(s.value.func, ast.Attribute) and \
+                    s.value.func.attr == 'update' and isinstance(s.value.func.value, ast.Name) and \
+                    s.value.func.value.id in env and s.value.func.value.id != 'self' and len(s.value.args) == 1:
+                w, env2 = fresh_w()
+                return '(modelUpdateM %s %s %s fun %s =>\n      %s)' % (env[s.value.func.value.id], self.expr(s.value.args[0], env, cname),
+                                                                       env['__w'], w, self.block(rest, env2, cname, end, brk))
+            if isinstance(s, ast.Expr) and isinstance(s.value, ast.Call) and isinstance(s.value.func, ast.Attribute) and \
+                    s.value.func.attr == 'delete' and not s.value.args and isinstance(s.value.func.value, ast.Call) and \
+                    isinstance(s.value.func.value.func, ast.Attribute) and s.value.func.value.func.attr == 'filter' and \
+                    sess_call(s.value.func.value.func.value, 'query') and len(s.value.func.value.args) == 1:
+                cond = s.value.func.value.args[0]
+                q = s.value.func.value.func.value
+                if isinstance(cond, ast.Compare) and len(cond.ops) == 1 and isinstance(cond.ops[0], ast.Eq) and \
+                        isinstance(cond.left, ast.Attribute) and cond.left.attr == 'uid' and \
+                        isinstance(cond.left.value, ast.Name) and cond.left.value.id == 'PolicyModel' and \
+                        len(q.args) == 1 and isinstance(q.args[0], ast.Name) and q.args[0].id == 'PolicyModel':
+                    w, env2 = fresh_w()
+                    return '(sessBulkDeleteM %s %s fun %s =>\n      %s)' % (self.expr(cond.comparators[0], env, cname), env['__w'], w,
+                                                                         self.block(rest, env2, cname, end, brk))
+            if isinstance(s, ast.Raise) and isinstance(s.exc, ast.Call) and isinstance(s.exc.func, ast.Name):
+                return '(raiseSqlM "%s" %s)' % (s.exc.func.id, env['__w'])
+            if isinstance(s, ast.Raise) and s.exc is None:
+                return '(raiseSqlM "re-raised" %s)' % env['__w']
+            if isinstance(s, ast.Return):
+                return '(pairM %s %s)' % (self.expr(s.value, env, cname) if s.value is not None else 'cNone', env['__w'])
         if getattr(self, 'effect_mode', None) == 'mongo':
             def coll_call(c, name):
                 return isinstance(c, ast.Call) and isinstance(c.func, ast.Attribute) and c.func.attr == name and \
@@ -1357,6 +1465,40 @@ def translate_migration(repo):
 ENFOLD_METHODS = ['add', 'update', 'delete', 'get', 'get_all', 'populate']
 
 
+SQL_METHODS = ['add', 'get', 'update', 'delete']
+
+
+def translate_sql(repo):
+    out = ['import Model.PyPrim', '/-! GENERATED by harness/pytolean.py from vakt/storage/sql/__init__.py (class SQLStorage) - do not edit -/',
+           'set_option linter.unusedVariables false', 'namespace Vakt.GenSql', 'open Vakt Vakt.PyPrim', '']
+    done, failed = [], []
+    tr = Translator(ast.parse(open(os.path.join(repo, 'vakt', 'storage', 'sql', '__init__.py')).read()))
+    tr.effect_mode = 'sql'
+    for m in SQL_METHODS:
+        try:
+            f = tr.method('SQLStorage', m)
+            params = [a.arg for a in f.args.args]
+            tr.attrs, tr.fresh = set(), 0
+            tr._flush_handler = None
+            env = {p: '(pure p_%s)' % p for p in params}
+            env['__w'] = '(pure p_w)'
+            body = tr.block(f.body, env, 'SQLStorage', end=lambda e: '(pairM cNone %s)' % e['__w'])
+            if tr.attrs:
+                raise Untranslatable('reads attributes %s' % sorted(tr.attrs))
+            out.append('/-- `vakt.storage.sql.SQLStorage.%s` (the session calls as effects; the last parameter is the world, the result '
+                       'the returned value with the world, or the world recording the exception) -/' % m)
+            out.append('def %s_SQLStorage (%s p_w : V) : M :=\n    %s\n' % (m, ' '.join('p_%s' % p for p in params), body))
+            done.append(m)
+        except Untranslatable as e:
+            failed.append((m, str(e)))
+    out.append('def translatedSql : List String := [%s]' % ', '.join('"%s"' % c for c in done))
+    out.append('def untranslatedSql : List (String × String) := [%s]' % ', '.join(
+        '("%s", "%s")' % (c, r.replace('"', "'")) for c, r in failed))
+    out.append('')
+    out.append('end Vakt.GenSql')
+    return '\n'.join(out) + '\n', [('sql', c, []) for c in done], [('sql', c, r) for c, r in failed]
+
+
 MONGO_METHODS = ['add', 'get', 'update', 'delete', 'get_all']
 
 
@@ -1712,7 +1854,8 @@ def regenerate(repo, lean_dir):
                                  (translate_policy_json, 'GenPolicyJson', ('translatedPolicyJson', 'untranslatedPolicyJson'),
                                   'PolicyJson.lean'),
                                  (translate_redis, 'GenRedis', ('translatedRedis', 'untranslatedRedis'), 'Redis.lean'),
-                                 (translate_mongo, 'GenMongo', ('translatedMongo', 'untranslatedMongo'), 'Mongo.lean')):
+                                 (translate_mongo, 'GenMongo', ('translatedMongo', 'untranslatedMongo'), 'Mongo.lean'),
+                                 (translate_sql, 'GenSql', ('translatedSql', 'untranslatedSql'), 'Sql.lean')):
         try:
             xtext, xtr, xun = fn(repo)
         except Exception as e:
@@ -1747,6 +1890,8 @@ if __name__ == '__main__':
         text, tr, un = translate_audit_msgs(repo)
     if '--guard-audit' in sys.argv:
         text, tr, un = translate_guard_audit(repo)
+    if '--sql' in sys.argv:
+        text, tr, un = translate_sql(repo)
     if '--mongo' in sys.argv:
         text, tr, un = translate_mongo(repo)
     if '--redis' in sys.argv:
